@@ -633,6 +633,10 @@ def r03_10(ctx):
 
     c_type_table(ctx)
     bool_node_classes_declare_bool(ctx)
+    from .c09 import literal_rendering, small_literal_typing
+
+    small_literal_typing(ctx)  # a literal's type is the one its suffix gives it, in either spelling (0x80000000u is unsigned: widening it zero-extends)
+    literal_rendering(ctx)  # ... and a literal is printed at the width of its type (the 1 / 0 a truth value converts to, in an 8 bit context, are 8 bit)
     from .c07 import r07_5
 
     init_a_cast_kind_independence(ctx)
